@@ -44,7 +44,8 @@ ASSUMPTIONS = ["enumeration of all 2^(N-2) index lists with left-to-right float 
                "only the upper triangle above the diagonal carries costs; diagonal, last row and last column are unused",
                "harness cost functions are pure; tracks for simplify modes 4-6 have no three collinear fixes and no two "
                "fixes with equal abscissa or ordinate (tracklib's convex hull / bounding rectangle are undefined there)"]
-EXHAUSTIVE = {"quick": "all 759 symmetric {0,1,2}-valued matrices for N=2..4, three directions each",
+EXHAUSTIVE = {"quick": "all 759 symmetric {0,1,2}-valued matrices for N=2..4, three directions each (N=5 and {0,1}-valued "
+                       "N=6 are strided 1/3 and 1/2)",
               "thorough": "all symmetric {0,1,2}-valued matrices for N=2..5 (59 808) and all {0,1}-valued for N=6 (32 768), "
                           "three directions each"}
 CASE_LIMIT_S = 20.0
@@ -284,8 +285,8 @@ def stop_track(rng):
     raise M.HarnessError("could not build a stop track")
 
 
-SIZES = {"quick": {"rnd": 400, "seg": 150, "free": 150, "osimp": 150, "s456": 100, "stops": 100, "st5": 9, "st6": 8},
-         "thorough": {"rnd": 6000, "seg": 1500, "free": 1500, "osimp": 1500, "s456": 1000, "stops": 1000, "st5": 1, "st6": 1}}
+SIZES = {"quick": {"rnd": 1200, "seg": 400, "free": 300, "osimp": 300, "s456": 250, "stops": 250, "st5": 3, "st6": 2},
+         "thorough": {"rnd": 10000, "seg": 3200, "free": 2400, "osimp": 2400, "s456": 2000, "stops": 2000, "st5": 1, "st6": 1}}
 FAMS = ["uniform", "smallint", "signed", "sparse", "uniform", "smallint", "huge", "uniform"]
 
 
@@ -317,18 +318,22 @@ def chunks(tier, seed):
 
 
 def floors(tier):
-    k = 8 if tier == "thorough" else 1
-    return {"monitors": {MONITOR: 20000 * k, "delegate.direction": 2500 * k, "delegate.output_at_recorded_indices": 1500 * k,
-                         "delegate.returns_recorded_list": 1000 * k},
-            "classes": {"exhaustive": 5000 * k, "random_reals": 5000 * k, "N=12": 200, "ties_between_optima": 1000,
-                        "nonzero_diagonal": 1000, "entries_1e300": 300, "negative_entries": 500,
-                        "optimalSegmentation": 800 * k, "optimalSimplification": 250 * k, "simplify_free_min": 200 * k,
-                        "simplify_free_max": 200 * k, "simplify_mode4": 150 * k, "simplify_mode5": 150 * k,
-                        "simplify_mode6": 150 * k, "findStopsGlobal": 500 * k, "stops_found": 250 * k,
-                        "two_stops": 50 * k, "no_stop": 30 * k, "direction_default": 300 * k,
-                        "direction_minimize": 300 * k, "direction_maximize": 300 * k, "with_global_parameter": 300 * k},
-            "counters": {"min_differs_from_max": 10000 * k},
-            "distinct_nontrivial": 8000 * k}
+    k = 2.4 if tier == "thorough" else 1
+    f = {"monitors": {MONITOR: 100000, "delegate.direction": 6000, "delegate.output_at_recorded_indices": 4000,
+                      "delegate.returns_recorded_list": 1800},
+         "classes": {"exhaustive": 30000, "random_reals": 15000, "N=12": 1000, "ties_between_optima": 5000,
+                     "nonzero_diagonal": 3000, "entries_1e300": 1000, "negative_entries": 1500,
+                     "optimalSegmentation": 2000, "optimalSimplification": 500, "simplify_free_min": 400,
+                     "simplify_free_max": 400, "simplify_mode4": 350, "simplify_mode5": 350,
+                     "simplify_mode6": 350, "findStopsGlobal": 1200, "stops_found": 600,
+                     "two_stops": 100, "no_stop": 60, "direction_default": 400,
+                     "direction_minimize": 800, "direction_maximize": 800, "with_global_parameter": 1200},
+         "counters": {"min_differs_from_max": 40000},
+         "distinct_nontrivial": 40000}
+    for kind in ("monitors", "classes", "counters"):
+        f[kind] = {name: int(v * k) for name, v in f[kind].items()}
+    f["distinct_nontrivial"] = int(f["distinct_nontrivial"] * k)
+    return f
 
 
 def _track_pts(rng, n):
@@ -548,7 +553,7 @@ def _delegate_common(ctx, r, what, want_mode, sig, base_cls, case_w):
     nt, more = _matrix_classes(Cl, N, ctx)
     cls += more
     ctx.monitor("delegate.direction")
-    if rec["mode"] != want_mode or isinstance(rec["mode"], bool) and False:
+    if rec["mode"] != want_mode:
         w = {"what": "%s handed direction %s to optimalPartition; the documented direction is %s"
                      % (what, _mode_name(rec["mode"]), _mode_name(want_mode)), "recorded_call": _rec_witness(rec)}
         w.update(case_w)
